@@ -39,8 +39,9 @@ def configs(tier):
     for thr, W, R, ct, trip in itertools.product(
             [1, 2, 3], [2, 4], [2, 3, 5],
             [{}, {"R": 1}, {"T": 2}, {"R": 2, "T": 3}],
-            [None, ["T"], ["T", "U"]]):
-        if tier == "quick" and ((thr == 3 and W == 2) or (R == 3 and ct) or (thr == 1 and len(ct) == 2)):
+            [None, ["T"], ["T", "U"], []]):
+        if tier == "quick" and ((thr == 3 and W == 2) or (R == 3 and ct) or (thr == 1 and len(ct) == 2)
+                                or (trip == [] and (thr == 3 or len(ct) == 2 or R == 5))):
             continue
         out.append({"threshold": thr, "window": W, "recovery": R, "class_thresholds": ct,
                     "trip_on": trip})
@@ -54,7 +55,10 @@ def tasks(tier):
     # policy level: sequential calls with clock advances on a real breaker
     for thr, W, R, e in itertools.product([1, 2], [2, 4], [2, 3],
                                           ["Policy.call", "Policy.execute", "AsyncPolicy.call",
-                                           "AsyncPolicy.execute", "Policy0.call", "AsyncPolicy0.execute"]):
+                                           "AsyncPolicy.execute", "Policy0.call", "AsyncPolicy0.execute"]
+                                          if tier == "thorough" else
+                                          ["Policy.call", "AsyncPolicy.execute", "Policy0.call",
+                                           "AsyncPolicy0.execute"]):
         cfg = dict(M=2 if tier == "quick" else 1, alphabet=["ok", "x:T", "x:R", "abort"],
                    max_unknown=None,
                    breaker={"threshold": thr, "window": W, "recovery": R, "trip_on": ["T"],
